@@ -1191,7 +1191,7 @@ class LCA_SqliteDatabase(SqliteIndex):
 
     def get_identifiers_for_hashval(self, hashval):
         "Return identifiers associated with this hashval"
-        idxlist = self.hashval_to_idx[hashval]
+        idxlist = self.hashval_to_idx.get(hashval, [])
         for idx in idxlist:
             yield self.idx_to_ident[idx]
 
